@@ -47,17 +47,40 @@
 //     obtained before). Option callbacks are only attached to instrument
 //     identities that are created once (the SDK documents that repeated creation
 //     ignores later callbacks).
-//   - No error may reach the otel error handler, RegisterCallback / instrument
-//     creation / Collect must not fail: the programs only do valid things.
+//   - The installed MeterProvider has 1-3 ManualReaders; Collect ops name a
+//     reader, the collections of different readers may overlap (a last phase
+//     makes them collect concurrently, and callbacks yield / sleep a generated
+//     tiny while before they observe). Every clause about callbacks and data is
+//     evaluated per reader and collection: an active callback's observations
+//     must be in THAT reader's collection exactly once. A callback learns which
+//     collection it serves from the context the SDK passes on from Collect
+//     (assumption: the SDK hands Collect's context to the callbacks; a callback
+//     run without it is reported as callback_outside_collection).
+//   - About one instrument in twelve gets a name the SDK refuses (leading digit,
+//     space, longer than 255) which the placeholder API accepts before
+//     installation; callbacks registered on such an instrument are rejected by
+//     the SDK (at installation if registered before). Nothing is asserted about
+//     the data of refused instruments / rejected callbacks, except that
+//     installation, Unregister and everything else still complete, that all
+//     OTHER instruments and callbacks forward as usual, that the constructor /
+//     RegisterCallback may return the corresponding error once the SDK is
+//     installed. Whether a rejection that happens at installation is reported
+//     to the otel error handler is only recorded as a class (the statement
+//     does not ask for it).
+//   - The only errors that may reach the otel error handler are those
+//     rejections (ErrInstrumentName, "invalid observable"), at most one per
+//     provoking operation; every other op and every Collect must succeed.
 //   - Deadlock freedom: the program simply runs to completion; a hang is turned
 //     into a violation by the vk watchdog (goroutine dump) and the driver.
 package c16
 
 import (
 	"context"
+	"errors"
 	"fmt"
 	"math"
 	"sort"
+	"strings"
 	"sync"
 	"sync/atomic"
 	"testing"
@@ -94,12 +117,16 @@ type Op struct {
 	Neg bool   `json:"neg,omitempty"` // rec: negative (up-down counters)
 	A   int    `json:"a,omitempty"`   // rec: attribute variant
 	Sp  int    `json:"sp,omitempty"`  // span: id
+	R   int    `json:"r,omitempty"`   // collect: reader index
+	Y   int    `json:"y,omitempty"`   // reg: perturbation inside the callback, before it observes (vk.Perturb)
+	Bad int    `json:"bad,omitempty"` // inst: 1..3 = a name the SDK refuses (leading digit / space / longer than 255)
 }
 
 // Case is one generated program.
 type Case struct {
-	Phases [][][]Op `json:"phases"`
-	Runs   int      `json:"runs"`
+	Phases  [][][]Op `json:"phases"`
+	Readers int      `json:"readers"` // ManualReaders of the installed MeterProvider (1-3)
+	Runs    int      `json:"runs"`
 }
 
 const maxBits = 26 // 4^25 = 2^50: sums stay exact in float64
@@ -176,6 +203,14 @@ func scopeIndex(name, version, schema string, attrs attribute.Set) int {
 }
 
 func instName(op Op) string {
+	switch op.Bad {
+	case 1:
+		return fmt.Sprintf("1st.%s_%d", kinds[op.Kd].short, op.N)
+	case 2:
+		return fmt.Sprintf("%s sp %d", kinds[op.Kd].short, op.N)
+	case 3:
+		return fmt.Sprintf("%s_%d_%s", kinds[op.Kd].short, op.N, strings.Repeat("x", 260))
+	}
 	if op.OC {
 		return fmt.Sprintf("%s_oc%d", kinds[op.Kd].short, op.CB)
 	}
@@ -185,6 +220,9 @@ func instName(op Op) string {
 // description / unit are a function of the name index so that instruments of
 // the same name never conflict.
 func instDescUnit(op Op) (string, string) {
+	if op.Bad != 0 {
+		return "", ""
+	}
 	if op.OC {
 		return "with option callback", ""
 	}
@@ -268,8 +306,11 @@ type opRec struct {
 	note       string
 }
 
+type collKey struct{}
+
 type collection struct {
 	idx        int
+	reader     int
 	start, end int64
 	err        error
 	rm         metricdata.ResourceMetrics
@@ -286,6 +327,8 @@ type instMeta struct {
 type cbMeta struct {
 	defined bool
 	opt     bool
+	tainted bool // observes an instrument whose name the SDK refuses: the SDK rejects the registration
+	regPh   int
 	insts   []int
 	reg     *opRec
 	unregs  []*opRec
@@ -294,7 +337,8 @@ type cbMeta struct {
 type world struct {
 	clock   *vk.Clock
 	mp      *sdkmetric.MeterProvider
-	reader  *sdkmetric.ManualReader
+	readers []*sdkmetric.ManualReader
+	rdMu    []sync.Mutex
 	tp      *sdktrace.TracerProvider
 	sp      *recSP
 	pr      *recProp
@@ -306,32 +350,39 @@ type world struct {
 	insts   []any
 	regs    []metric.Registration
 
-	collectMu sync.Mutex
-	cur       atomic.Int64
-	colls     []*collection
+	collsMu sync.Mutex
+	colls   []*collection
 
 	invMu sync.Mutex
 	inv   map[[2]int]int
 }
 
-func (w *world) invoked(cb int) int {
-	j := int(w.cur.Load())
+// invoked notes one run of callback cb; the collection it belongs to is the
+// one whose Collect call carries the context the SDK hands to the callback.
+func (w *world) invoked(ctx context.Context, cb int) int {
+	j := -1
+	if v, ok := ctx.Value(collKey{}).(int); ok {
+		j = v
+	}
 	w.invMu.Lock()
 	w.inv[[2]int{cb, j}]++
 	w.invMu.Unlock()
 	return j
 }
 
-func (w *world) collect() *collection {
-	w.collectMu.Lock()
-	defer w.collectMu.Unlock()
-	col := &collection{idx: len(w.colls)}
-	w.cur.Store(int64(col.idx))
-	col.start = w.clock.Tick()
-	col.err = w.reader.Collect(context.Background(), &col.rm)
-	col.end = w.clock.Tick()
-	w.cur.Store(-1)
+// collect runs one collection of reader rd (one at a time per reader; the
+// collections of different readers may overlap).
+func (w *world) collect(rd int) *collection {
+	w.rdMu[rd].Lock()
+	defer w.rdMu[rd].Unlock()
+	w.collsMu.Lock()
+	col := &collection{idx: len(w.colls), reader: rd}
 	w.colls = append(w.colls, col)
+	w.collsMu.Unlock()
+	ctx := context.WithValue(context.Background(), collKey{}, col.idx)
+	col.start = w.clock.Tick()
+	col.err = w.readers[rd].Collect(ctx, &col.rm)
+	col.end = w.clock.Tick()
 	return col
 }
 
@@ -345,13 +396,13 @@ func attrOpt(a int) attribute.Set {
 func (w *world) createInst(op Op) (any, error) {
 	m := w.meters[op.U]
 	name := instName(op)
-	cbi := func(_ context.Context, o metric.Int64Observer) error {
-		j := w.invoked(op.CB)
+	cbi := func(ctx context.Context, o metric.Int64Observer) error {
+		j := w.invoked(ctx, op.CB)
 		o.Observe(obsValue(op.CB, j), metric.WithAttributes(attribute.Int("cb", op.CB)))
 		return nil
 	}
-	cbf := func(_ context.Context, o metric.Float64Observer) error {
-		j := w.invoked(op.CB)
+	cbf := func(ctx context.Context, o metric.Float64Observer) error {
+		j := w.invoked(ctx, op.CB)
 		o.Observe(float64(obsValue(op.CB, j)), metric.WithAttributes(attribute.Int("cb", op.CB)))
 		return nil
 	}
@@ -452,9 +503,21 @@ func runOnce(c Case) ([]vk.Violation, map[string]bool) {
 
 	clock := &vk.Clock{}
 	w := &world{clock: clock, inv: map[[2]int]int{}}
-	w.cur.Store(-1)
-	w.reader = sdkmetric.NewManualReader()
-	w.mp = sdkmetric.NewMeterProvider(sdkmetric.WithReader(w.reader), sdkmetric.WithResource(resource.Empty()))
+	nReaders := c.Readers
+	if nReaders < 1 {
+		nReaders = 1
+	}
+	if nReaders > 3 {
+		nReaders = 3
+	}
+	mpOpts := []sdkmetric.Option{sdkmetric.WithResource(resource.Empty())}
+	for i := 0; i < nReaders; i++ {
+		rd := sdkmetric.NewManualReader()
+		w.readers = append(w.readers, rd)
+		mpOpts = append(mpOpts, sdkmetric.WithReader(rd))
+	}
+	w.rdMu = make([]sync.Mutex, nReaders)
+	w.mp = sdkmetric.NewMeterProvider(mpOpts...)
 	w.sp = &recSP{clock: clock, ended: map[string][]spanSeen{}, start: map[string]int{}}
 	w.tp = sdktrace.NewTracerProvider(sdktrace.WithSpanProcessor(w.sp), sdktrace.WithResource(resource.Empty()))
 	w.pr = &recProp{}
@@ -549,7 +612,7 @@ func runOnce(c Case) ([]vk.Violation, map[string]bool) {
 				cm[op.CB] = cbMeta{defined: true, opt: true, insts: []int{op.D}, reg: &recs[ph][g][i]}
 			}
 		case "reg":
-			cm[op.CB] = cbMeta{defined: true, insts: op.Is, reg: &recs[ph][g][i]}
+			cm[op.CB] = cbMeta{defined: true, insts: op.Is, reg: &recs[ph][g][i], regPh: ph}
 		}
 	})
 	each(func(ph, g, i int, op Op) {
@@ -568,6 +631,13 @@ func runOnce(c Case) ([]vk.Violation, map[string]bool) {
 			}
 			if op.U < 0 || op.U >= nMeter || len(op.Is) == 0 {
 				valid = false
+			}
+			if valid {
+				for _, s := range op.Is {
+					if im[s].op.Bad != 0 {
+						cm[op.CB].tainted = true
+					}
+				}
 			}
 		case "rec":
 			if op.U < 0 || op.U >= nInst || !im[op.U].defined || kinds[im[op.U].op.Kd].obs || op.Bit < 0 || op.Bit >= maxBits {
@@ -681,9 +751,11 @@ func runOnce(c Case) ([]vk.Violation, map[string]bool) {
 				break
 			}
 			cb := op.CB
-			f := func(_ context.Context, o metric.Observer) error {
-				j := w.invoked(cb)
+			delay := op.Y
+			f := func(ctx context.Context, o metric.Observer) error {
+				j := w.invoked(ctx, cb)
 				v := obsValue(cb, j)
+				vk.Perturb(delay) // lets the collections of other readers get into the same callback
 				for x, h := range hs {
 					if kinds[ks[x]].float {
 						o.ObserveFloat64(h.(metric.Float64Observable), float64(v), metric.WithAttributes(attribute.Int("cb", cb)))
@@ -718,8 +790,12 @@ func runOnce(c Case) ([]vk.Violation, map[string]bool) {
 				r.skipped = true
 			}
 		case "collect":
-			col := w.collect()
-			r.note = fmt.Sprintf("collection#%d", col.idx)
+			rd := op.R
+			if rd < 0 || rd >= nReaders {
+				rd = 0
+			}
+			col := w.collect(rd)
+			r.note = fmt.Sprintf("collection#%d reader %d", col.idx, rd)
 		case "pause":
 			time.Sleep(100 * time.Microsecond)
 		case "set_mp":
@@ -746,8 +822,9 @@ func runOnce(c Case) ([]vk.Violation, map[string]bool) {
 			}
 		})
 	}
-	final := w.collect()
-	_ = final
+	for rd := 0; rd < nReaders; rd++ {
+		w.collect(rd)
+	}
 
 	// ---- instants ----
 	instant := func(kind string) (iss, ret int64) {
@@ -772,11 +849,69 @@ func runOnce(c Case) ([]vk.Violation, map[string]bool) {
 	_ = prIss
 
 	// ---- no errors ----
+	// The only errors a program provokes: instruments with a name the SDK
+	// refuses (reported when the placeholder is connected at installation, or
+	// returned by the constructor afterwards) and callbacks registered on such an
+	// instrument (rejected by the SDK's RegisterCallback).
+	nameErrs, obsErrs := 0, 0
 	for _, e := range errs.Errors() {
-		bad("error_reported", "an error reached the otel error handler although the program only does valid things: %v", e)
+		switch {
+		case errors.Is(e, sdkmetric.ErrInstrumentName):
+			nameErrs++
+		case strings.Contains(e.Error(), "invalid observable"):
+			obsErrs++
+		default:
+			bad("error_reported", "an error reached the otel error handler which no operation of the program explains: %v", e)
+		}
 	}
+	badOps, taintedRegs := 0, 0
+	ipMP := -1 // phase of SetMeterProvider
+	each(func(ph, _, _ int, op Op) {
+		if op.K == "set_mp" {
+			ipMP = ph
+		}
+	})
+	preBad := map[string]bool{}
+	preTainted := 0
 	each(func(ph, g, i int, op Op) {
 		r := recs[ph][g][i]
+		switch {
+		case op.K == "inst" && op.Bad != 0 && r.done && !r.skipped:
+			badOps++
+			if ph < ipMP {
+				preBad[im[op.D].ident] = true
+			}
+			if r.err != nil {
+				classes["refused_instrument_name:constructor_returned_error"] = true
+				if !errors.Is(r.err, sdkmetric.ErrInstrumentName) {
+					bad("op_failed", "phase %d goroutine %d op %d: creating %q returned %v, expected an ErrInstrumentName error or a placeholder", ph, g, i, instName(op), r.err)
+				}
+			} else {
+				classes["refused_instrument_name:placeholder"] = true
+			}
+			return
+		case op.K == "reg" && cm[op.CB].tainted && r.done && !r.skipped:
+			taintedRegs++
+			if r.err != nil {
+				classes["RegisterCallback_on_refused_instrument:returned_error"] = true
+			} else {
+				classes["RegisterCallback_on_refused_instrument:accepted_by_placeholder"] = true
+			}
+			if ph < ipMP && r.err == nil {
+				early := false
+				for _, u := range cm[op.CB].unregs {
+					each(func(uph, ug, ui int, _ Op) {
+						if &recs[uph][ug][ui] == u && uph <= ipMP {
+							early = true
+						}
+					})
+				}
+				if !early {
+					preTainted++
+				}
+			}
+			return
+		}
 		if r.err != nil {
 			bad("op_failed", "phase %d goroutine %d op %d (%s) returned an error: %v", ph, g, i, op.K, r.err)
 		}
@@ -784,9 +919,31 @@ func runOnce(c Case) ([]vk.Violation, map[string]bool) {
 			classes["op_skipped(handle missing)"] = true
 		}
 	})
+	if nameErrs > badOps {
+		bad("error_reported", "%d 'invalid instrument name' errors reached the error handler, the program creates only %d instruments with a refused name", nameErrs, badOps)
+	}
+	if obsErrs > taintedRegs {
+		bad("error_reported", "%d 'invalid observable' errors reached the error handler, the program registers only %d callbacks on refused instruments", obsErrs, taintedRegs)
+	}
+	if ipMP >= 0 {
+		// Whether (and how often) the rejections are REPORTED is not part of
+		// the statement: only recorded as classes, never asserted.
+		if nameErrs < len(preBad) {
+			classes["refused_pre_install_instrument_not_reported(not asserted)"] = true
+		}
+		if obsErrs < preTainted {
+			classes["rejected_pre_install_callback_not_reported(not asserted)"] = true
+		}
+		if preTainted > 0 {
+			classes["SDK_rejects_pre_install_callback_at_installation"] = true
+		}
+		if len(preBad) > 0 {
+			classes["SDK_refuses_pre_install_instrument_at_installation"] = true
+		}
+	}
 	for _, col := range w.colls {
 		if col.err != nil {
-			bad("collect_failed", "Collect #%d returned %v", col.idx, col.err)
+			bad("collect_failed", "Collect #%d (reader %d) returned %v", col.idx, col.reader, col.err)
 		}
 	}
 
@@ -946,11 +1103,17 @@ func runOnce(c Case) ([]vk.Violation, map[string]bool) {
 
 	attrKeys := []string{"", "a=1;"}
 	for _, col := range w.colls {
+		cl := fmt.Sprintf("%d (reader %d)", col.idx, col.reader)
+		for _, o := range w.colls {
+			if o.reader != col.reader && o.start < col.end && o.end > col.start {
+				classes["collections_of_two_readers_overlap(observed)"] = true
+			}
+		}
 		streams := map[string]*stream{}
 		for _, sm := range col.rm.ScopeMetrics {
 			si := scopeIndex(sm.Scope.Name, sm.Scope.Version, sm.Scope.SchemaURL, sm.Scope.Attributes)
 			if si < 0 {
-				bad("unknown_scope", "Collect #%d reports scope %+v which no meter of the program has (meter options lost?)", col.idx, sm.Scope)
+				bad("unknown_scope", "Collect #%s reports scope %+v which no meter of the program has (meter options lost?)", cl, sm.Scope)
 				continue
 			}
 			for _, m := range sm.Metrics {
@@ -962,24 +1125,27 @@ func runOnce(c Case) ([]vk.Violation, map[string]bool) {
 				}
 				streams[key] = st
 				if _, ok := idents[key]; !ok {
-					bad("unknown_stream", "Collect #%d reports metric %q in scope %d which the program never created there", col.idx, m.Name, si)
+					bad("unknown_stream", "Collect #%s reports metric %q in scope %d which the program never created there", cl, m.Name, si)
 				}
 			}
 		}
 		for _, key := range identOrder {
 			id := idents[key]
+			if id.op.Bad != 0 {
+				continue // refused by the SDK: nothing is asserted about its data
+			}
 			kd := kinds[id.op.Kd]
 			st := streams[key]
 			if st != nil {
 				wd, wu := instDescUnit(id.op)
 				if st.dups > 0 {
-					bad("duplicate_stream", "Collect #%d reports metric %s %d times", col.idx, key, st.dups+1)
+					bad("duplicate_stream", "Collect #%s reports metric %s %d times", cl, key, st.dups+1)
 				}
 				if st.desc != wd || st.unit != wu {
-					bad("instrument_options_lost", "Collect #%d: metric %s has description %q unit %q, created with %q %q", col.idx, key, st.desc, st.unit, wd, wu)
+					bad("instrument_options_lost", "Collect #%s: metric %s has description %q unit %q, created with %q %q", cl, key, st.desc, st.unit, wd, wu)
 				}
 				if st.shape != kd.shape || st.float != kd.float || !st.cumulative {
-					bad("wrong_instrument_kind", "Collect #%d: metric %s (kind %s) is reported with shape %d float %v cumulative %v", col.idx, key, kd.short, st.shape, st.float, st.cumulative)
+					bad("wrong_instrument_kind", "Collect #%s: metric %s (kind %s) is reported with shape %d float %v cumulative %v", cl, key, kd.short, st.shape, st.float, st.cumulative)
 					continue
 				}
 			}
@@ -996,7 +1162,7 @@ func runOnce(c Case) ([]vk.Violation, map[string]bool) {
 			if st != nil {
 				for ak := range st.pts {
 					if ak != attrKeys[0] && ak != attrKeys[1] {
-						bad("unexpected_datapoint", "Collect #%d: metric %s has a data point with attributes %q which no measurement used", col.idx, key, ak)
+						bad("unexpected_datapoint", "Collect #%s: metric %s has a data point with attributes %q which no measurement used", cl, key, ak)
 					}
 				}
 			}
@@ -1009,7 +1175,7 @@ func runOnce(c Case) ([]vk.Violation, map[string]bool) {
 				must := func(m meas) bool { return m.attr == a && m.start > mpRet && m.end < col.start }
 				may := func(m meas) bool { return m.attr == a && m.start < col.end }
 				if has && !pt.exact {
-					bad("value_not_decodable", "Collect #%d: metric %s{%s} reports a non-integral / out of range value", col.idx, key, ak)
+					bad("value_not_decodable", "Collect #%s: metric %s{%s} reports a non-integral / out of range value", cl, key, ak)
 					continue
 				}
 				switch kd.shape {
@@ -1027,17 +1193,17 @@ func runOnce(c Case) ([]vk.Violation, map[string]bool) {
 					}
 					if !has {
 						if mustAny {
-							bad("measurement_lost", "Collect #%d (t=%d..%d): gauge %s{%s} has no data point although a Record was issued after SetMeterProvider returned (t=%d) and returned before the collection", col.idx, col.start, col.end, key, ak, mpRet)
+							bad("measurement_lost", "Collect #%s (t=%d..%d): gauge %s{%s} has no data point although a Record was issued after SetMeterProvider returned (t=%d) and returned before the collection", cl, col.start, col.end, key, ak, mpRet)
 						}
 						continue
 					}
 					if src == nil {
-						bad("phantom_measurement", "Collect #%d: gauge %s{%s} reports %d which no Record issued before the end of the collection carried with these attributes", col.idx, key, ak, pt.v)
+						bad("phantom_measurement", "Collect #%s: gauge %s{%s} reports %d which no Record issued before the end of the collection carried with these attributes", cl, key, ak, pt.v)
 						continue
 					}
 					for _, m := range id.ms {
 						if must(m) && m.start > src.end {
-							bad("measurement_lost", "Collect #%d: gauge %s{%s} reports the value of Record #%d (t=%d..%d) although Record #%d was issued later (t=%d..%d), after SetMeterProvider returned (t=%d), and returned before the collection started (t=%d)", col.idx, key, ak, src.bit, src.start, src.end, m.bit, m.start, m.end, mpRet, col.start)
+							bad("measurement_lost", "Collect #%s: gauge %s{%s} reports the value of Record #%d (t=%d..%d) although Record #%d was issued later (t=%d..%d), after SetMeterProvider returned (t=%d), and returned before the collection started (t=%d)", cl, key, ak, src.bit, src.start, src.end, m.bit, m.start, m.end, mpRet, col.start)
 							break
 						}
 					}
@@ -1048,15 +1214,15 @@ func runOnce(c Case) ([]vk.Violation, map[string]bool) {
 					}
 					set, ok := decode(total, sign)
 					if !ok {
-						bad("value_not_decodable", "Collect #%d: metric %s{%s} reports %d which is not a sum of distinct measurements of the program (each is +-4^k): some measurement counted twice or a foreign value", col.idx, key, ak, total)
+						bad("value_not_decodable", "Collect #%s: metric %s{%s} reports %d which is not a sum of distinct measurements of the program (each is +-4^k): some measurement counted twice or a foreign value", cl, key, ak, total)
 						continue
 					}
 					if kd.shape == shapeHist && has && pt.count != uint64(len(set)) {
-						bad("histogram_count", "Collect #%d: histogram %s{%s} has count %d but its sum %d is made of %d measurements", col.idx, key, ak, pt.count, total, len(set))
+						bad("histogram_count", "Collect #%s: histogram %s{%s} has count %d but its sum %d is made of %d measurements", cl, key, ak, pt.count, total, len(set))
 					}
 					for _, m := range id.ms {
 						if must(m) && !set[m.bit] {
-							bad("measurement_lost", "Collect #%d (t=%d..%d): metric %s{%s} = %d does not contain measurement #%d (%d, issued t=%d..%d in phase %d through instrument handle %d) although it was issued after SetMeterProvider had returned (t=%d) and returned before the collection started", col.idx, col.start, col.end, key, ak, total, m.bit, pow4(m.bit), m.start, m.end, m.ph, m.slot, mpRet)
+							bad("measurement_lost", "Collect #%s (t=%d..%d): metric %s{%s} = %d does not contain measurement #%d (%d, issued t=%d..%d in phase %d through instrument handle %d) although it was issued after SetMeterProvider had returned (t=%d) and returned before the collection started", cl, col.start, col.end, key, ak, total, m.bit, pow4(m.bit), m.start, m.end, m.ph, m.slot, mpRet)
 						}
 						if m.attr == a && set[m.bit] && m.start < mpRet {
 							classes["measurement_issued_before_install_returned_was_forwarded"] = true
@@ -1070,7 +1236,7 @@ func runOnce(c Case) ([]vk.Violation, map[string]bool) {
 							}
 						}
 						if !found {
-							bad("phantom_measurement", "Collect #%d: metric %s{%s} = %d contains measurement #%d which was not issued with these attributes before the collection ended", col.idx, key, ak, total, bit)
+							bad("phantom_measurement", "Collect #%s: metric %s{%s} = %d contains measurement #%d which was not issued with these attributes before the collection ended", cl, key, ak, total, bit)
 						}
 					}
 				}
@@ -1080,10 +1246,17 @@ func runOnce(c Case) ([]vk.Violation, map[string]bool) {
 		// ---- callbacks in this collection ----
 		for k := range cm {
 			cb := cm[k]
-			if !cb.defined || !cb.reg.done || cb.reg.skipped || cb.reg.err != nil {
+			if !cb.defined || !cb.reg.done || cb.reg.skipped || cb.reg.err != nil || cb.tainted {
 				continue
 			}
 			n := w.inv[[2]int{k, col.idx}]
+			if n > 0 {
+				for _, o := range w.colls {
+					if o.reader != col.reader && o.start < col.end && o.end > col.start && w.inv[[2]int{k, o.idx}] > 0 {
+						classes["callback_ran_in_overlapping_collections_of_two_readers(observed)"] = true
+					}
+				}
+			}
 			active := cb.reg.end
 			if mpRet > active {
 				active = mpRet
@@ -1114,13 +1287,13 @@ func runOnce(c Case) ([]vk.Violation, map[string]bool) {
 			}
 			switch {
 			case n > 1:
-				bad("callback_ran_twice", "Collect #%d (t=%d..%d): %s %d ran %d times in one collection (registered t=%d..%d, SetMeterProvider returned t=%d)", col.idx, col.start, col.end, what, k, n, cb.reg.start, cb.reg.end, mpRet)
+				bad("callback_ran_twice", "Collect #%s (t=%d..%d): %s %d ran %d times in one collection (registered t=%d..%d, SetMeterProvider returned t=%d)", cl, col.start, col.end, what, k, n, cb.reg.start, cb.reg.end, mpRet)
 			case active < col.start && us > col.end && n != 1:
-				bad("callback_not_run", "Collect #%d (t=%d..%d): %s %d did not run although its registration (t=%d..%d) and SetMeterProvider (returned t=%d) had completed before and no Unregister was issued before the collection ended", col.idx, col.start, col.end, what, k, cb.reg.start, cb.reg.end, mpRet)
+				bad("callback_not_run", "Collect #%s (t=%d..%d): %s %d did not run although its registration (t=%d..%d) and SetMeterProvider (returned t=%d) had completed before and no Unregister was issued before the collection ended", cl, col.start, col.end, what, k, cb.reg.start, cb.reg.end, mpRet)
 			case ue < col.start && n != 0:
-				bad("unregistered_callback_ran", "Collect #%d (t=%d..%d): callback %d ran although its Unregister had returned at t=%d (issued t=%d; registered t=%d..%d; SetMeterProvider t=%d..%d)", col.idx, col.start, col.end, k, ue, us, cb.reg.start, cb.reg.end, mpIss, mpRet)
+				bad("unregistered_callback_ran", "Collect #%s (t=%d..%d): callback %d ran although its Unregister had returned at t=%d (issued t=%d; registered t=%d..%d; SetMeterProvider t=%d..%d)", cl, col.start, col.end, k, ue, us, cb.reg.start, cb.reg.end, mpIss, mpRet)
 			case cb.reg.start > col.end && n != 0:
-				bad("callback_ran_before_registration", "Collect #%d: callback %d ran before it was registered", col.idx, k)
+				bad("callback_ran_before_registration", "Collect #%s: callback %d ran before it was registered", cl, k)
 			}
 			if n == 1 {
 				if active >= col.start || us <= col.end {
@@ -1135,7 +1308,7 @@ func runOnce(c Case) ([]vk.Violation, map[string]bool) {
 						pt, has = st.pts[fmt.Sprintf("cb=%d;", k)]
 					}
 					if !has || !pt.exact || pt.v != want {
-						bad("observation_lost", "Collect #%d: %s %d ran and observed %d on %s, the collection has %v (present %v)", col.idx, what, k, want, im[s].ident, pt.v, has)
+						bad("observation_lost", "Collect #%s: %s %d ran and observed %d on %s, the collection has %v (present %v)", cl, what, k, want, im[s].ident, pt.v, has)
 					}
 				}
 			}
@@ -1428,8 +1601,8 @@ func run(c Case) ([]vk.Violation, vk.Info) {
 func TestGlobalDelegation(t *testing.T) {
 	vk.Run(t, vk.Spec[Case]{
 		Property: "C16", Check: "global_delegation",
-		Rule: "generated four-phase concurrent programs over the public otel API, each executed twice from pristine globals: phase 0 (1-2 goroutines, before installation) obtains provider / propagator handles, meters and tracers (4 scopes with version / schema URL / attributes), instruments of all 14 kinds (shared identities, option callbacks), registers multi-instrument callbacks and unregisters some; " +
-			"phase 1 (1-7 goroutines) does the same plus measurements, spans, Inject/Extract, Collect while 1-3 goroutines each call otel.SetMeterProvider / SetTracerProvider / SetTextMapPropagator with one recording SDK (ManualReader, recording SpanProcessor, recording propagator), 50% of the programs with a 'storm' (a meter with up to 10 instruments and 8 callbacks that a dedicated goroutine unregisters while the SDK is installed); phase 2 (1-4 goroutines) continues through old and new handles; phase 3 uses every handle once more and collects; self-installs (SetX(GetX())) anywhere; " +
+		Rule: "generated five-phase concurrent programs over the public otel API, each executed twice from pristine globals: phase 0 (1-2 goroutines, before installation) obtains provider / propagator handles, meters and tracers (4 scopes with version / schema URL / attributes), instruments of all 14 kinds (shared identities, option callbacks), registers multi-instrument callbacks and unregisters some; " +
+			"phase 1 (1-7 goroutines) does the same plus measurements, spans, Inject/Extract, Collect while 1-3 goroutines each call otel.SetMeterProvider / SetTracerProvider / SetTextMapPropagator with one recording SDK (1-3 ManualReaders, recording SpanProcessor, recording propagator), 50% of the programs with a 'storm' (a meter with up to 10 instruments and 8 callbacks that a dedicated goroutine unregisters while the SDK is installed); phase 2 (1-4 goroutines) continues through old and new handles; phase 3 uses every handle once more and collects; phase 4 (>= 2 readers) lets every reader collect concurrently while the callbacks yield/sleep inside; about 1 instrument in 12 has a name the SDK refuses (callbacks on it are rejected at installation); self-installs (SetX(GetX())) anywhere; " +
 			"non-trivial = a handle obtained before the installation is used after it AND an Unregister of a pre-install callback runs in the same phase as SetMeterProvider on another goroutine; distinct = distinct case encodings",
 		Quick: 1000, Thorough: 15000,
 		Gen: gen, Run: run, Repeat: 200,
